@@ -200,8 +200,9 @@ def move_cases(rng, name: str, per_kind: int):
     bonds, _, angles, _, _, _ = c.get_bond_angle_info()
     for a in (angles if per_kind <= 0 else rng.sample(angles, min(per_kind, len(angles)))):
         out.append(("angle", [int(x) for x in a], rng.uniform(-25, 25)))
-    for b in (bonds if per_kind <= 0 else rng.sample(bonds, min(per_kind, len(bonds)))):
-        out.append(("bond", [int(x) for x in b], rng.choice([rng.uniform(-0.2, 0.3), 0.25, -0.125])))
+    both = [[int(x) for x in b] for b in bonds] + [[int(b[1]), int(b[0])] for b in bonds]     # either end may be the one displaced
+    for b in (both if per_kind <= 0 else rng.sample(both, min(2 * per_kind, len(both)))):
+        out.append(("bond", b, rng.choice([rng.uniform(-0.2, 0.3), 0.25, -0.125])))
     return out
 
 
@@ -444,6 +445,29 @@ def pred_std(lo, hi, x, m, prop, us) -> tuple[str, str] | None:
     return None
 
 
+def pred_std_reused(calls) -> tuple[str, str] | None:
+    """ONE step-taker used for a series of moves: other boxes (a proportional step follows the box it is used in)
+    and a step size reconfigured between moves; calls = [(lo, hi, x, m, us)], proportional throughout or not"""
+    from topsearch.global_optimisation.perturbations import StandardPerturbation
+    prop = calls[0][5]
+    sp = StandardPerturbation(calls[0][3], prop)
+    for n_call, (lo, hi, x, m, us, _p) in enumerate(calls):
+        sp.max_displacement = m
+        c = std_coords(lo, hi, x)
+        with patched(np.random, "rand", lambda *shape: np.array(us, dtype=float).reshape(shape)):
+            sp.perturb(c)
+        for i, (a, b) in enumerate(zip(x, c.position)):
+            step = m * (hi[i] - lo[i]) if prop else m
+            if abs(b - a) > 0.5 * step + 1e-12 * (1 + abs(a) + step):
+                return ("StandardPerturbation:step-exceeds-half:reused-object",
+                        f"move {n_call + 1} of one step-taker object: coordinate {i}: {a} -> {b}, more than half the step "
+                        f"{step} configured for this move (box [{lo[i]}, {hi[i]}], max_displacement {m}, proportional {prop})")
+            if not lo[i] <= b <= hi[i]:
+                return ("StandardPerturbation:outside-box:reused-object", f"move {n_call + 1}: coordinate {i}: {a} -> {b} "
+                        f"outside [{lo[i]}, {hi[i]}]")
+    return None
+
+
 def pred_atomic(n, k, m, pos, seed) -> tuple[str, str] | None:
     """exactly k atoms move, never the first, each axis by at most half the step"""
     from topsearch.global_optimisation.perturbations import AtomicPerturbation
@@ -514,6 +538,20 @@ def pred_move(name, kind, idx, amount) -> tuple[str, str] | None:
     if fixed and np.abs((p1 - p0).reshape(-1, 3)[fixed]).max() > tol:
         return (f"{kind}:rest-moved", f"{where}: atoms outside the fragment move by "
                 f"{np.abs((p1 - p0).reshape(-1, 3)[fixed]).max():.3g}")
+    if kind == "bond":
+        # a length change alters the chosen bond; when both its atoms sit in a ring the displaced atom drags its other
+        # ring bonds along; every other bond of the reference bonding (the substituents that ride along) keeps its length
+        ring = {x for cyc in nx.cycle_basis(G) for x in cyc}
+        in_ring = idx[0] in ring and idx[1] in ring
+        d0, d1 = blen(p0), blen(p1)
+        for (u, v), a, b in zip(G.edges(), d0, d1):
+            u, v = int(u), int(v)
+            if abs(b - a) <= tol or {u, v} == {idx[0], idx[1]}:
+                continue
+            if in_ring and idx[1] in (u, v) and u in ring and v in ring:
+                continue
+            return ("bond:other-bond-length-changed", f"{where}: the reference bond {(u, v)} changes its length by "
+                    f"{abs(b - a):.3g} (fragment moved: {moved})")
     if kind == "dihedral":
         if np.abs(blen(p1) - blen(p0)).max() > tol:
             return ("dihedral:bond-length-changed", f"{where}: a bond length of the reference bonding changes by "
@@ -613,6 +651,21 @@ def predicates(ctx: Ctx) -> None:
         ctx.stats.case({"stream": "predicate-std", "x": x, "m": m, "prop": prop}, True)
         if r:
             ctx.fail(r[0], r[1], {"kind": "std", "lo": lo, "hi": hi, "x": x, "m": m, "prop": prop, "us": us})
+    for i in range(ctx.scale(40, 300) * deep):
+        d = rng.randint(1, 4)
+        prop = i % 2 == 0
+        calls = []
+        for _ in range(rng.randint(2, 4)):
+            lo, hi = random_box(rng, d)
+            x = [0.5 * (l + h) for l, h in zip(lo, hi)]             # from the centre, extreme draws
+            m = rng.choice([0.125, 0.5, 1.0]) if prop else rng.choice([0.25, 1.0, 4.0])
+            us = [rng.choice([0.0, 1 - 2.0 ** -53]) if rng.random() < 0.7 else rng.random() for _ in range(d)]
+            calls.append((lo, hi, x, m, us, prop))
+        r = pred_std_reused(calls)
+        ctx.stats.case({"stream": "predicate-std-reused-object", "d": d, "prop": prop, "moves": len(calls)}, True)
+        if r:
+            ctx.fail(r[0], r[1], {"kind": "std-reused", "calls": [list(c) for c in calls]})
+            break
     for i in range(ctx.scale(150, 1500) * deep):
         n = rng.randint(2, 8)
         k = rng.randint(1, n - 1) if i % 4 else n - 1
@@ -708,6 +761,10 @@ def replay(ctx: Ctx, data: dict) -> bool:
         r = pred_atomic(data["n"], data["k"], data["m"], data["pos"], data["seed"])
     elif k == "move":
         r = pred_move(data["molecule"], data["move"], data["atoms"], data["amount"])
+    elif k == "std-reused":
+        r = pred_std_reused([tuple(c) for c in data["calls"]])
+    elif k == "sequence":
+        r = pred_sequence(data["molecule"], [tuple(x) for x in data["seq"]])
     if r:
         print(f"  {r[0]}: {r[1]}")
     return r is None
